@@ -27,7 +27,7 @@ Definition mmap (m : cmap C1) : cmap C2 := map (fun p => (fst p, phi (snd p))) m
 Definition mset (s : nset C1) : nset C2 :=
   mkNS C2 (ns_sum C1 s) (phi (ns_cnt C1 s)) (phi (ns_zb C1 s)) (ns_zt C1 s) (ns_sch C1 s) (ns_bn C1 s) (mmap (ns_pos C1 s)) (mmap (ns_neg C1 s)).
 Definition msh (h : nsh C1) : nsh C2 :=
-  mkNH C2 (nh_cfg C1 h) (nh_hot C1 h) (nh_tk C1 h) (mset (nh_s0 C1 h)) (mset (nh_s1 C1 h)) (nh_mtx C1 h).
+  mkNH C2 (nh_cfg C1 h) (nh_hot C1 h) (nh_tk C1 h) (mset (nh_s0 C1 h)) (mset (nh_s1 C1 h)) (nh_mtx C1 h) (nh_rs C1 h).
 Definition mout (o : nout C1) : nout C2 :=
   mkNOut C2 (no_sch C1 o) (no_zt C1 o) (phi (no_zc C1 o)) (no_count C1 o) (no_sum C1 o) (mmap (no_pos C1 o)) (mmap (no_neg C1 o)).
 Definition mret (r : nret C1) : nret C2 :=
@@ -45,10 +45,10 @@ Definition mpc (pc : npc C1) : npc C2 :=
   | oBnAdd _ v b => oBnAdd C2 v b
   | oZero _ v b => oZero C2 v b
   | oCount _ v b => oCount C2 v b
-  | lLoadBn _ b => lLoadBn C2 b
-  | lLock _ => lLock C2
-  | lLoadIdx _ => lLoadIdx C2
-  | lLoadBn2 _ hb => lLoadBn2 C2 hb
+  | lLoadBn _ v b => lLoadBn C2 v b
+  | lLock _ v => lLock C2 v
+  | lLoadIdx _ v => lLoadIdx C2 v
+  | lLoadBn2 _ v hb => lLoadBn2 C2 v hb
   | zLoadZt _ hb => zLoadZt C2 hb
   | zRangeP _ hb => zRangeP C2 hb
   | zRangeN _ hb skp => zRangeN C2 hb skp
@@ -99,6 +99,26 @@ Definition mpc (pc : npc C1) : npc C2 :=
   | mStore _ k c neg r kk ks => mStore C2 k c neg (mret r) kk ks
   | dStoreBn2 _ c => dStoreBn2 C2 c
   | xUnlock _ r => xUnlock C2 (mret r)
+  | fCheck _ => fCheck C2
+  | cAdv _ d => cAdv C2 d
+  | rLock _ => rLock C2
+  | rLoadIdx _ => rLoadIdx C2
+  | rStore _ rk ph x fd => rStore C2 rk ph x fd
+  | rRange _ rk ph x neg => rRange C2 rk ph x neg
+  | rDel _ rk ph x neg ks => rDel C2 rk ph x neg ks
+  | hSumLoad _ v x => hSumLoad C2 v x
+  | hSumCas _ v x old => hSumCas C2 v x old
+  | hLoadSch _ v x => hLoadSch C2 v x
+  | hLoadZt _ v x s => hLoadZt C2 v x s
+  | hBkLoad _ v x neg k => hBkLoad C2 v x neg k
+  | hBkLos _ v x neg k => hBkLos C2 v x neg k
+  | hBkAdd _ v x neg k => hBkAdd C2 v x neg k
+  | hBnAdd _ v x => hBnAdd C2 v x
+  | hZero _ v x => hZero C2 v x
+  | hCount _ v x => hCount C2 v x
+  | rSwap _ rk x => rSwap C2 rk x
+  | rCool _ rk c count => rCool C2 rk c count
+  | rSpin _ rk c count => rSpin C2 rk c count
   end.
 Definition mnxt (n : npc C1 + nret C1) : npc C2 + nret C2 := match n with inl p => inl (mpc p) | inr r => inr (mret r) end.
 
@@ -144,6 +164,13 @@ Proof. destruct k; reflexivity. Qed.
 Lemma m_out_add o neg k x : out_add C2 (mout o) neg k (phi x) = mout (out_add C1 o neg k x).
 Proof. destruct neg; unfold out_add, mout; cbn; rewrite mm_app; reflexivity. Qed.
 
+Lemma m_rstore g s fd : rstore_set C2 z2 g (mset s) fd = mset (rstore_set C1 z1 g s fd).
+Proof. destruct fd; cbn [rstore_set]; rewrite <- ?Hz; reflexivity. Qed.
+Lemma m_r_done rk ph neg ks h : r_done C2 rk ph neg ks (msh h) = msh (r_done C1 rk ph neg ks h).
+Proof. destruct ks, neg, ph; reflexivity. Qed.
+Lemma m_r_next rk ph x neg ks : r_next C2 rk ph x neg ks = mpc (r_next C1 rk ph x neg ks).
+Proof. destruct ks, neg, ph, rk; reflexivity. Qed.
+
 Definition step1 := nstep C1 z1 a1 o1 l1.
 Definition step2 := nstep C2 z2 a2 o2 l2.
 Definition mres (x : option (nsh C1 * (npc C1 + nret C1))) : option (nsh C2 * (npc C2 + nret C2)) :=
@@ -158,7 +185,7 @@ Lemma p_bn s : ns_bn C2 (mset s) = ns_bn C1 s. Proof. reflexivity. Qed.
 Lemma p_pos s : ns_pos C2 (mset s) = mmap (ns_pos C1 s). Proof. reflexivity. Qed.
 Lemma p_neg s : ns_neg C2 (mset s) = mmap (ns_neg C1 s). Proof. reflexivity. Qed.
 
-Ltac hom_rw := cbn [mres mnxt mpc msh nh_cfg nh_hot nh_tk nh_mtx nh_s0 nh_s1];
+Ltac hom_rw := cbn [mres mnxt mpc msh nh_cfg nh_hot nh_tk nh_mtx nh_s0 nh_s1 nh_rs];
   rewrite ?m_nget, ?p_sum, ?p_cnt, ?p_zb, ?p_zt, ?p_sch, ?p_bn, ?p_pos, ?p_neg, ?m_side, ?mm_has, ?mm_keys, ?mm_find, ?Hl.
 Ltac hom_ifs := repeat match goal with |- context [if ?c then _ else _] => destruct c end.
 Ltac hom_st := rewrite <- ?Ho; rewrite <- ?Ha; rewrite <- ?Hz;
@@ -188,6 +215,15 @@ Proof.
       [hom_go|intros m; apply mm_upd; intros x; rewrite Ha; reflexivity].
   - (* mStore *) rewrite (m_upd_side h c neg (fun m => cm_upd C1 m kk (fun _ => z1)) (fun m => cm_upd C2 m kk (fun _ => z2)));
       [hom_go|intros m; apply mm_upd; intros x; rewrite Hz; reflexivity].
+  - (* rStore *) hom_rw. rewrite m_rstore, m_nput. destruct (rfield_next fd); reflexivity.
+  - (* rRange *) hom_rw. rewrite m_r_done, m_r_next. reflexivity.
+  - (* rDel *) destruct ks as [|k ks']; [rewrite m_r_done, m_r_next; reflexivity|].
+    rewrite (m_upd_side h x neg (fun m => cm_del C1 m k) (fun m => cm_del C2 m k)); [|intros m; apply mm_del].
+    rewrite m_r_done, m_r_next. reflexivity.
+  - (* hBkLos *) rewrite (m_upd_side h x neg (fun m => cm_ins C1 m k (o1 v)) (fun m => cm_ins C2 m k (o2 v)));
+      [hom_go|intros m; rewrite <- Ho; apply mm_ins].
+  - (* hBkAdd *) rewrite (m_upd_side h x neg (fun m => cm_upd C1 m k (fun y => a1 y (o1 v))) (fun m => cm_upd C2 m k (fun y => a2 y (o2 v))));
+      [hom_go|intros m; apply mm_upd; intros y; rewrite Ha, Ho; reflexivity].
 Qed.
 Lemma label_hom pc : nlabel C2 (mpc pc) = nlabel C1 pc.
 Proof. destruct pc; reflexivity. Qed.
@@ -205,9 +241,9 @@ Lemma set_nth_map {A B} (f : A -> B) (l : list A) : forall n x, map f (set_nth l
 Proof. induction l as [|y r IH]; intros [|n] x; cbn; try reflexivity. rewrite IH. reflexivity. Qed.
 Lemma advance_hom tid todo idx time :
   advance M2 tid todo idx time = (mthread (fst (advance M1 tid todo idx time)), map mcall (snd (advance M1 tid todo idx time))).
-Proof. destruct todo as [|[v|] rest]; reflexivity. Qed.
+Proof. destruct todo as [|[v| | |d] rest]; reflexivity. Qed.
 Lemma advance_nil tid todo idx time : snd (advance M1 tid todo idx time) = [].
-Proof. destruct todo as [|[v|] rest]; reflexivity. Qed.
+Proof. destruct todo as [|[v| | |d] rest]; reflexivity. Qed.
 
 Lemma sched_step_hom c tid : sched_step M2 (mcfg c) tid = option_map mcfg (sched_step M1 c tid).
 Proof.
@@ -244,4 +280,21 @@ Proof.
   { induction L as [|p L IH]; [reflexivity|]. cbn [map concat]. rewrite map_app, IH, advance_hom. cbn [snd]. reflexivity. }
   rewrite A, B. reflexivity.
 Qed.
+(* the ledger (values ticketed since the last reset swap) is the same in both machines *)
+Lemma ledger_eff_hom pc L : ledger_eff C2 (mpc pc) L = ledger_eff C1 pc L.
+Proof. destruct pc; reflexivity. Qed.
+Lemma pc_of_hom c tid : pc_of C2 z2 a2 o2 l2 (mcfg c) tid = option_map mpc (pc_of C1 z1 a1 o1 l1 c tid).
+Proof.
+  unfold pc_of. cbn [thr mcfg]. rewrite nth_error_map. change (native_machine C1 z1 a1 o1 l1) with M1.
+  destruct (nth_error (thr c) (Z.to_nat tid)) as [t|]; cbn [option_map]; [|reflexivity].
+  cbn [mthread t_cur]. destruct (t_cur t) as [[[o l] i]|]; reflexivity.
+Qed.
+Lemma ledger_hom sched : forall c L, ledger C2 z2 a2 o2 l2 (mcfg c) sched L = ledger C1 z1 a1 o1 l1 c sched L.
+Proof.
+  induction sched as [|t r IH]; intros c L; cbn [ledger]; [reflexivity|].
+  change (native_machine C2 z2 a2 o2 l2) with M2. change (native_machine C1 z1 a1 o1 l1) with M1.
+  rewrite sched_step_hom, pc_of_hom. destruct (sched_step M1 c t) as [c'|]; cbn [option_map]; [|apply IH].
+  rewrite IH. destruct (pc_of C1 z1 a1 o1 l1 c t) as [pc|]; cbn [option_map]; [rewrite ledger_eff_hom|]; reflexivity.
+Qed.
+
 End Hom.
